@@ -215,3 +215,62 @@ def validate_terms(chk, items, ranges=None, npoints=2):
         if abs(got - lv) > Fraction(1, 10 ** 9) * M:
             chk.validation['mismatches'] += 1
             chk.infra.append('ENCODING MISMATCH %s<%s> %s: term=%s library=%s' % (view.name, view.scalar, meth, rp.mp.nstr(lv, 20), rp.mp.nstr(got, 20)))
+
+
+class ApiView(object):
+    """A solution reached through the public C++ API: masa_init executed on the IR, then evaluators
+    called through MASA::masa_eval_*<Scalar>, i.e. through the registry and the virtual dispatch."""
+
+    def __init__(self, chk, world, name, scalar, handle='h'):
+        import sol as S
+        self.chk, self.w, self.name, self.scalar = chk, world, name, scalar
+        st = world.base.clone()
+        S.api_init(world, st, scalar, handle, name)
+        self.obj, self.reg_rid = S.selected_object(world, st, scalar)
+        self.sol = world.describe(st, self.obj, scalar)
+        st.events = []
+        self.st = st
+        self.P = world.symbolize(st, self.sol, cache_prefix='cache')
+        self.terms = {}
+
+    def sig(self, args):
+        s = []
+        for a in args:
+            if isinstance(a, T) and a.sort == 'I':
+                s.append('int')
+            elif isinstance(a, int):
+                s.append('int')
+            else:
+                s.append(self.scalar)
+        return ', '.join(s)
+
+    def has_api(self, api, args):
+        import sol as S
+        try:
+            S.api_fn(self.w, api, self.scalar, self.sig(args))
+            return True
+        except KeyError:
+            return False
+
+    def paths(self, api, args, max_paths=64):
+        import sol as S
+        fn = S.api_fn(self.w, api, self.scalar, self.sig(args))
+        self.w.ex.called = set()
+        paths = self.w.ex.explore(self.st, lambda ex: ex.call(fn, list(args)), max_paths)
+        self.chk.functions.add(fn)
+        for c in self.w.ex.called:
+            if c in self.w.prog.functions:
+                self.chk.functions.add(c)
+        return paths
+
+    def term(self, api, args):
+        key = (api, tuple(a.id if isinstance(a, T) else a for a in args))
+        if key not in self.terms:
+            paths = self.paths(api, args)
+            for p in paths:
+                if p['error'] is not None:
+                    raise ExecError('%s: %s' % (api, p['error']))
+                if p['terminal'] is not None:
+                    raise ExecError('%s: terminal %r' % (api, p['terminal']))
+            self.terms[key] = (merge_paths(paths), paths)
+        return self.terms[key][0]
